@@ -59,3 +59,103 @@ Proof.
   - exists c3, [((0, - (1 / c3)), 1); ((0, 1 / c3), 1)]. split; [reflexivity|]. intros P lo hi H. apply gl2_exact. simpl in H. lia.
   - exists c3, [((0, - (1 / c3)), 1); ((0, 1 / c3), 1)]. split; [reflexivity|]. intros P lo hi H. apply gl2_exact. exact H.
 Qed.
+
+(* ================================================================== phase 4: the three-point rule 0, +- sqrt(3/5) (p = 4, 5) *)
+(* The Horner evaluation in Q(sqrt 15) is first brought into closed form (binomial expansion of (m + s sqrt D)^k, by `ring`), so
+   that the exactness statement is a flat polynomial identity; shorter coefficient lists are padded with zeros. *)
+Lemma xpeval6_closed D a0 a1 a2 a3 a4 a5 m s :
+  xpeval D [a0; a1; a2; a3; a4; a5] (m, s) =
+  (a0 + a1 * m + a2 * (m*m + D*s*s) + a3 * (m*m*m + (1+1+1)*D*m*s*s) + a4 * (m*m*m*m + (1+1+1+1+1+1)*D*m*m*s*s + D*D*s*s*s*s)
+      + a5 * (m*m*m*m*m + (1+1+1+1+1+1+1+1+1+1)*D*m*m*m*s*s + (1+1+1+1+1)*D*D*m*s*s*s*s),
+   a1 * s + (1+1) * a2 * m * s + a3 * ((1+1+1)*m*m*s + D*s*s*s) + a4 * ((1+1+1+1)*m*m*m*s + (1+1+1+1)*D*m*s*s*s)
+      + a5 * ((1+1+1+1+1)*m*m*m*m*s + (1+1+1+1+1+1+1+1+1+1)*D*m*m*s*s*s + D*D*s*s*s*s*s)).
+Proof.
+  cbn [xpeval]. unfold xadd, xmul. cbn [fst snd]. f_equal; ring.
+Qed.
+
+Definition r3 : list (qx * Qc) := [((0, - (1 / c5)), c5 / c9); ((0, 0), (c5 + c3) / c9); ((0, 1 / c5), c5 / c9)].
+
+Lemma gl3_six a0 a1 a2 a3 a4 a5 lo hi :
+  gl_apply (c3 * c5) r3 [a0; a1; a2; a3; a4; a5] lo hi = (pintegral [a0; a1; a2; a3; a4; a5] lo hi, 0).
+Proof.
+  unfold gl_apply, r3. cbn [fold_right fst snd]. rewrite !xpeval6_closed.
+  unfold pintegral, panti, c9, c5, c3; cbn [panti_from peval Pos.succ];
+  rewrite ?qc_of_pos_1, ?qc_of_pos_2, ?qc_of_pos_3, ?qc_of_pos_4, ?qc_of_pos_5, ?qc_of_pos_6;
+  unfold xadd, xscale; cbn [fst snd].
+  f_equal; field; nz.
+Qed.
+
+(* ---- shorter coefficient lists: pad with zeros *)
+Lemma xpeval_app0 D x : forall P, xpeval D (P ++ [0]) x = xpeval D P x.
+Proof.
+  induction P as [|c P IH].
+  - cbn [app xpeval]. unfold xadd, xmul. cbn [fst snd]. f_equal; ring.
+  - cbn [app xpeval]. rewrite IH. reflexivity.
+Qed.
+
+Lemma peval_app0 c x : c = 0 -> forall P, peval (P ++ [c]) x = peval P x.
+Proof.
+  intros E P. subst c. induction P as [|a P IH]; cbn [app peval]; [ring | rewrite IH; reflexivity].
+Qed.
+
+
+Lemma panti_from_app P c : forall k, exists c', c' = c / qc_of_pos (Pos.of_nat (length P + Pos.to_nat k)) /\ panti_from k (P ++ [c]) = panti_from k P ++ [c'].
+Proof.
+  induction P as [|a P IH]; intro k.
+  - exists (c / qc_of_pos k). cbn [length plus]. rewrite Pos2Nat.id. split; reflexivity.
+  - destruct (IH (Pos.succ k)) as [c' [E1 E2]]. exists c'. split.
+    + rewrite E1. cbn [length]. f_equal. f_equal. f_equal. rewrite Pos2Nat.inj_succ. lia.
+    + cbn [app panti_from]. rewrite E2. reflexivity.
+Qed.
+
+Lemma pintegral_app0 P lo hi : pintegral (P ++ [0]) lo hi = pintegral P lo hi.
+Proof.
+  unfold pintegral, panti. destruct (panti_from_app P 0 1) as [c' [E1 E2]]. rewrite E2.
+  assert (Z : c' = 0) by (rewrite E1; unfold Qcdiv; ring).
+  cbn [peval]. rewrite !(peval_app0 c' _ Z). reflexivity.
+Qed.
+
+Lemma gl_apply_ext D rule P Q lo hi : (forall x, xpeval D P x = xpeval D Q x) -> gl_apply D rule P lo hi = gl_apply D rule Q lo hi.
+Proof.
+  intro H. unfold gl_apply. induction rule as [|tw rule IH]; [reflexivity|]. cbn [fold_right]. rewrite IH, H. reflexivity.
+Qed.
+
+Lemma pad_zeros D rule lo hi : forall n P,
+  gl_apply D rule (P ++ repeat 0 n) lo hi = gl_apply D rule P lo hi /\ pintegral (P ++ repeat 0 n) lo hi = pintegral P lo hi.
+Proof.
+  induction n as [|n IH]; intro P.
+  - cbn [repeat]. rewrite app_nil_r. split; reflexivity.
+  - cbn [repeat]. replace (P ++ 0 :: repeat 0 n) with ((P ++ [0]) ++ repeat 0 n) by (rewrite <- app_assoc; reflexivity).
+    destruct (IH (P ++ [0])) as [A B]. rewrite A, B. split.
+    + apply gl_apply_ext. intro x. apply xpeval_app0.
+    + apply pintegral_app0.
+Qed.
+
+Theorem gl3_exact : forall P lo hi, (length P <= 6)%nat -> gl_apply (c3 * c5) r3 P lo hi = (pintegral P lo hi, 0).
+Proof.
+  intros P lo hi H.
+  destruct (pad_zeros (c3 * c5) r3 lo hi (6 - length P) P) as [A B]. rewrite <- A, <- B.
+  assert (L : length (P ++ repeat 0 (6 - length P)) = 6%nat) by (rewrite app_length, repeat_length; lia).
+  destruct (P ++ repeat 0 (6 - length P)) as [|a0 [|a1 [|a2 [|a3 [|a4 [|a5 [|a6 Q]]]]]]]; try discriminate L.
+  apply gl3_six.
+Qed.
+
+(* all rules the code uses up to order 5 *)
+Theorem gl_rule_exact3 n D rule : (n <= 3)%nat -> gl_rule n = Some (D, rule) ->
+  forall P lo hi, (length P <= 2 * n)%nat -> gl_apply D rule P lo hi = (pintegral P lo hi, 0).
+Proof.
+  intros Hn E P lo hi H.
+  destruct n as [|[|[|[|n]]]]; [discriminate E | | | | lia].
+  - injection E as E1 E2. subst D rule. apply gl1_exact. exact H.
+  - injection E as E1 E2. subst D rule. apply gl2_exact. exact H.
+  - injection E as E1 E2. subst D rule. apply gl3_exact. exact H.
+Qed.
+
+Theorem code_rule_exact_upto5 p : (1 <= p <= 5)%nat ->
+  exists D rule, gl_rule (gl_points p) = Some (D, rule) /\
+    forall P lo hi, (length P <= p + 1)%nat -> gl_apply D rule P lo hi = (pintegral P lo hi, 0).
+Proof.
+  intros Hp. destruct (Nat.le_gt_cases p 3) as [L|L]; [apply code_rule_exact_for_degree_p; lia|].
+  assert (C : (p = 4 \/ p = 5)%nat) by lia.
+  destruct C as [E|E]; subst p; exists (c3 * c5), r3; (split; [reflexivity|]); intros P lo hi H; apply gl3_exact; simpl in H; lia.
+Qed.
